@@ -946,6 +946,8 @@ func exprShape(v ssa.Value, depth int) string {
 // are normalised the same way).
 func c12More(p *load.Prog, r *oblig.Run) {
 	c12Identity(p, r)
+	c12DateDistance(p, r)
+	c12Convex(p, r)
 	c12Weights(p, r)
 	r.Rule("R12.c", "the greedy matching in IndividualNodes.Similarity orders equal scores deterministically (stable sort)", 1)
 	r.Rule("R12.d", "StringSimilarity normalises both strings with the same chain of operations", 1)
